@@ -7,7 +7,7 @@ from core import short
 import flow
 from flow import fmt_events
 from roles import field_root, FILE
-from rules_pipeline import expr_str, methods_of, resolve_alias, deep_resolve
+from rules_pipeline import expr_str, methods_of, resolve_alias, deep_resolve, flat_nodes
 
 OHB = 'Vector::BLF::ObjectHeaderBase'
 U2Q = FILE + '::uncompressedFile2ReadWriteQueue'
@@ -720,7 +720,8 @@ def E2B3(F, rep, FL, rules):
                     dl = strip_all_casts(a[1])
                     dlv = dl.get('sub') if dl.get('k') == 'Un' else None
                     dlid = local_id(dlv) if dlv else None
-                    resized = [x for x in flat if x.get('k') == 'Call' and x.get('fn') == 'resize' and member_path(x.get('obj')) == dst and x['l'] < n['l']]
+                    pos_n = [i_ for i_, x in enumerate(flat) if x is n][0]
+                    resized = [x for x in flat[:pos_n] if x.get('k') == 'Call' and x.get('fn') == 'resize' and member_path(x.get('obj')) == dst]
                     ok_dst = bool(resized) and local_id(resized[-1]['args'][0]) == dlid and dlid is not None
                     sl = strip_all_casts(a[3])
                     sname = (member_path(sl) or (None,))[-1]
@@ -1072,7 +1073,7 @@ def F3F4(F, rep, FL):
     rep.count('F3')
     ok1 = ok2 = ok3 = False
     pm = {p['name']: p['id'] for p in co['params']}
-    for n_ in walk(co['body']):
+    for n_ in flat_nodes(F, co):
         if n_.get('k') == 'Call' and n_.get('fn') == 'compress2':
             ok1 = local_id(n_['args'][4]) == pm.get('compressionLevel')
         if n_.get('k') == 'Bin' and n_.get('op') == '=' and (member_path(n_['lhs']) or (None,))[-1] == 'compressionMethod':
@@ -1434,6 +1435,19 @@ def offsets_u2q(F, FL):
     return fn, res
 
 
+def _unwrap(x):
+    """casts, parentheses and the copy construction of a by-value class argument peeled off"""
+    x = strip_all_casts(x)
+    for _ in range(6):
+        if isinstance(x, dict) and x.get('k') == 'Paren':
+            x = strip_all_casts(x.get('sub'))
+        elif isinstance(x, dict) and x.get('k') == 'Construct' and len(x.get('args', [])) == 1:
+            x = strip_all_casts(x['args'][0])
+        else:
+            break
+    return x
+
+
 def _declared_end_excess(arg, decls, marks, hdr_var):
     """arg is  -(X)  with  X = <stream>.tellg() - (MARK + hdr.objectSize)  (X possibly a local initialised so): returns the offset of MARK"""
     if not (isinstance(arg, dict) and arg.get('k') in ('Un', 'Call')):
@@ -1456,14 +1470,10 @@ def _declared_end_excess(arg, decls, marks, hdr_var):
         parts = (x['args'][0], x['args'][1])
     if not parts:
         return None
-    l, r = strip_all_casts(parts[0]), strip_all_casts(parts[1])
+    l, r = _unwrap(parts[0]), _unwrap(parts[1])
     for _ in range(3):
-        if isinstance(r, dict) and r.get('k') == 'Paren':
-            r = strip_all_casts(r.get('sub'))
-        elif isinstance(r, dict) and r.get('k') == 'Ref' and r.get('id') in decls and r.get('id') not in marks and decls[r['id']].get('init') is not None:
-            r = strip_all_casts(decls[r['id']]['init'])     # a named local for the declared end
-            while isinstance(r, dict) and r.get('k') == 'Construct' and len(r.get('args', [])) == 1:
-                r = strip_all_casts(r['args'][0])
+        if isinstance(r, dict) and r.get('k') == 'Ref' and r.get('id') in decls and r.get('id') not in marks and decls[r['id']].get('init') is not None:
+            r = _unwrap(decls[r['id']]['init'])     # a named local for the declared end
     if isinstance(l, dict) and l.get('k') == 'Ref' and l.get('id') in decls and l.get('id') not in marks and decls[l['id']].get('init') is not None:
         l = strip_all_casts(decls[l['id']]['init'])
     if not (isinstance(l, dict) and l.get('k') == 'Call' and l.get('fn') == 'tellg' and recv_root(l) == 'm_uncompressedFile'):
@@ -1475,7 +1485,7 @@ def _declared_end_excess(arg, decls, marks, hdr_var):
         sum_ = (r['args'][0], r['args'][1])
     if not sum_:
         return None
-    a, b = strip_all_casts(sum_[0]), strip_all_casts(sum_[1])
+    a, b = _unwrap(sum_[0]), _unwrap(sum_[1])
     for m_, o_ in ((a, b), (b, a)):
         if isinstance(m_, dict) and m_.get('k') == 'Ref' and m_.get('id') in marks and isinstance(o_, dict) and o_.get('k') == 'Member' and \
                 o_.get('name') == 'objectSize' and local_id(o_.get('base')) == hdr_var:
@@ -1900,7 +1910,7 @@ def B7(F, rep):
     # B3w: inside the stream class, the buffer and its size field are only ever changed together
     for fn in methods_of(F, cls):
         seq = []
-        for n in walk(fn['body'], into_lambda=False):
+        for n in flat_nodes(F, fn):
             if n.get('k') == 'Call' and n.get('fn') == 'resize' and mname(n.get('obj')) == 'uncompressedFile':
                 seq.append(('resize', n['l'], _norm(expr_str(n['args'][0]))))
             if n.get('k') == 'Bin' and n.get('op') == '=' and mname(n['lhs']) == 'uncompressedFileSize':
@@ -2447,6 +2457,50 @@ def _cmp_atoms(cond):
     return out
 
 
+def path_facts(evs, fn):
+    """comparison atoms whose truth value is known on a path: every branch condition is decomposed through !, a true conjunction and a
+    false disjunction.  -> list of (lhs, op, rhs, truth) with normalised strings"""
+    out = []
+    for e in evs:
+        if e['ev'] != 'branch':
+            continue
+        work = [(deep_resolve(e['n'], fn), bool(e['taken']))]
+        while work:
+            c, tv = work.pop()
+            c = strip(c)
+            while isinstance(c, dict) and (c.get('k') in ('Cast', 'Paren') or (c.get('k') == 'Un' and c.get('op') == '!')):
+                if c.get('k') == 'Un':
+                    tv = not tv
+                c = strip(c['sub'])
+            if not isinstance(c, dict):
+                continue
+            if c.get('k') == 'Bin' and c.get('op') == '&&':
+                if tv:
+                    work += [(c['lhs'], True), (c['rhs'], True)]
+            elif c.get('k') == 'Bin' and c.get('op') == '||':
+                if not tv:
+                    work += [(c['lhs'], False), (c['rhs'], False)]
+            elif c.get('k') == 'Bin' and c.get('op') in ('<', '>', '<=', '>=', '==', '!='):
+                out.append((_norm(expr_str(c['lhs'])), c['op'], _norm(expr_str(c['rhs'])), tv))
+            elif c.get('k') == 'Call' and c.get('ck') == 'operator' and c.get('op') in ('<', '>', '<=', '>=', '==', '!=') and len(c.get('args', [])) == 2:
+                out.append((_norm(expr_str(c['args'][0])), c['op'], _norm(expr_str(c['args'][1])), tv))
+    return out
+
+
+def known_le(facts, a_set, b):
+    """is  A <= b  known on the path for some A in a_set"""
+    NEGOP = {'<': '>=', '>': '<=', '<=': '>', '>=': '<', '==': '!=', '!=': '=='}
+    FLIPOP = {'<': '>', '>': '<', '<=': '>=', '>=': '<=', '==': '==', '!=': '!='}
+    for l, o, r, tv in facts:
+        if not tv:
+            o = NEGOP[o]
+        if r in a_set and l == b:
+            l, r, o = r, l, FLIPOP[o]
+        if l in a_set and r == b and o in ('<=', '<', '=='):
+            return True
+    return False
+
+
 def P4(F, rep, FL):
     """dropOldData removes the front container only when it lies wholly behind the get position (and put position / end)"""
     fn = F.fn('Vector::BLF::UncompressedFile::dropOldData')
@@ -2465,15 +2519,10 @@ def P4(F, rep, FL):
         if nullfront:
             continue
         n += 1
-        guard = [e for e in evs[:pops[0]] if e['ev'] == 'branch' and not e['taken'] and
-                 any(x.get('k') == 'Member' and x.get('name') == 'm_tellg' for x in walk(e['n']))]
-        okg = False
+        # on the way to the pop it is known that END(front) <= m_tellg, END = size + position of the front container (whatever form the test
+        # has: `if (END > g) return`, `if (!(END <= g && ...)) break`, `while (END <= g) pop`, ...)
         ends = ('(uncompressedFileSize + filePosition)', '(filePosition + uncompressedFileSize)')
-        for g in guard:
-            # the guard (not taken) must contain the atom  END(front) > m_tellg  in either orientation, END = size + position of the front
-            for atom in _cmp_atoms(deep_resolve(g['n'], fn)):
-                if (atom[0] in ends and atom[1] == '>' and atom[2] == 'm_tellg') or (atom[0] == 'm_tellg' and atom[1] == '<' and atom[2] in ends):
-                    okg = True
+        okg = known_le(path_facts(evs[:pops[0]], fn), ends, 'm_tellg')
         okp = okg
         front = any(e['ev'] == 'call' and e['n'].get('fn') == 'front' for e in evs[:pops[0]])
         if not (okg and okp and front):
